@@ -279,14 +279,20 @@ def selection_blocks(b, prov, local, pred, depth=0, seen=None):
                 continue
             e = prov.rvalue(payload, blk)
             if derives(e, pred):
-                if src is not None and len(prov.defs.get(src.local, ())) == 1 and not b.local_name(src.local):
+                if src is not None and len(prov.defs.get(src.local, ())) == 1 and (not b.local_name(src.local) or prov.defs[src.local][0][1] == "call"):
                     sub = selection_blocks(b, prov, src.local, pred, depth + 1, seen)
                     out += sub or [blk]
                 else:
                     out.append(blk)
         elif kind == "call":
             if derives(prov.call(payload, blk), pred):
-                out.append(blk)
+                # `(if flag { a } else { b }).expect(..)`: the choice was made where the unwrapped temporary was assigned
+                a0 = payload.args[0].place if payload.args else None
+                if a0 is not None and a0.is_local() and re.search(r"(Option|Result)::(expect|unwrap|unwrap_unchecked)$", short(payload.callee() or "")):
+                    sub = selection_blocks(b, prov, a0.local, pred, depth + 1, seen)
+                    out += sub or [blk]
+                else:
+                    out.append(blk)
     return sorted(set(out))
 
 
